@@ -43,6 +43,8 @@ type analyzer struct {
 	fset    *token.FileSet
 	info    *types.Info
 	decls   map[*types.Func]*ast.FuncDecl
+	declsN  map[string]*ast.FuncDecl // by full name: a call from another package refers to the importer's instance of the callee
+	ownersN map[string]bool
 	owners  map[*types.Named]bool // structs that own a mutex
 	units   []*unit
 	pending []func()
@@ -411,17 +413,116 @@ func (a *analyzer) call(ps *pset, call *ast.CallExpr) {
 		if s, ok := a.info.Selections[sel]; ok && s.Kind() == types.MethodVal {
 			fn := s.Obj().(*types.Func)
 			owner := namedOf(s.Recv())
-			if d, ok := a.decls[fn]; ok && owner != nil && a.owners[owner] && d.Body != nil {
+			d, ok := a.decls[fn]
+			if !ok {
+				d, ok = a.declsN[fn.FullName()]
+			}
+			if ok && owner != nil && (a.owners[owner] || a.ownersN[ownerKey(owner)]) && d.Body != nil {
 				a.inline(ps, fn, d, a.text(sel.X), call)
+				// a registrar that may call the hook it is given before it returns (Process.AddExitHook on a terminated
+				// process, Local.AddStoreHook when the value is already there): the hook's body is ALSO a synchronous
+				// callback at this call site, under whatever the caller holds here
+				for i, x := range call.Args {
+					if fl := hookLit(x); fl != nil && invokesParam(d, i) {
+						before := clonePaths(ps.open)
+						sub := &pset{open: clonePaths(ps.open)}
+						a.block(sub, fl.Body.List)
+						a.finish(sub)
+						ps.open = dedupe(append(sub.done, before...))
+					}
+				}
 			}
 		}
 	}
 }
 
+var bottomPkgs = map[string]bool{"process": true}
+
+func ownerKey(n *types.Named) string {
+	if n == nil || n.Obj() == nil || n.Obj().Pkg() == nil {
+		return ""
+	}
+	return n.Obj().Pkg().Path() + "." + n.Obj().Name()
+}
+
+// hookLit: the function literal behind a hook argument: f(func...) or f(pkg.XxxFunc(func...))
+func hookLit(x ast.Expr) *ast.FuncLit {
+	switch y := x.(type) {
+	case *ast.FuncLit:
+		return y
+	case *ast.CallExpr:
+		name := ""
+		switch f := y.Fun.(type) {
+		case *ast.Ident:
+			name = f.Name
+		case *ast.SelectorExpr:
+			name = f.Sel.Name
+		}
+		if strings.HasSuffix(name, "Func") && len(y.Args) == 1 {
+			if fl, ok := y.Args[0].(*ast.FuncLit); ok {
+				return fl
+			}
+		}
+	}
+	return nil
+}
+
+// invokesParam: does the body of d call (a method of) its i-th parameter?
+func invokesParam(d *ast.FuncDecl, i int) bool {
+	var names []string
+	for _, f := range d.Type.Params.List {
+		if len(f.Names) == 0 {
+			names = append(names, "")
+		}
+		for _, n := range f.Names {
+			names = append(names, n.Name)
+		}
+	}
+	if i >= len(names) || names[i] == "" || names[i] == "_" {
+		return false
+	}
+	found := false
+	ast.Inspect(d.Body, func(n ast.Node) bool {
+		c, ok := n.(*ast.CallExpr)
+		if !ok {
+			return true
+		}
+		switch f := c.Fun.(type) {
+		case *ast.Ident:
+			if f.Name == names[i] {
+				found = true
+			}
+		case *ast.SelectorExpr:
+			if id, ok := f.X.(*ast.Ident); ok && id.Name == names[i] {
+				found = true
+			}
+		}
+		return true
+	})
+	return found
+}
+
 func (a *analyzer) inline(ps *pset, fn *types.Func, d *ast.FuncDecl, recvText string, call *ast.CallExpr) {
 	for _, f := range a.stack {
-		if f == fn {
+		if f == fn || f.FullName() == fn.FullName() {
 			return // recursion: the callee's events at this depth are those already on the path
+		}
+	}
+	// calls into ANOTHER package are followed when the callee belongs to a package at the bottom of the engine's
+	// dependency order (pkg/process: exit hooks, process-local stores), whose locks every other package's code runs into;
+	// other cross-package chains are analysed from their own roots (following them all multiplies the skeleton by 20)
+	if n := len(a.stack); fn.Pkg() != nil {
+		caller := ""
+		if n > 0 && a.stack[n-1].Pkg() != nil {
+			caller = a.stack[n-1].Pkg().Name()
+		} else {
+			caller = a.curFn
+			if i := strings.Index(caller, "."); i > 0 {
+				caller = caller[:i]
+			}
+		}
+		if fn.Pkg().Name() != caller && !bottomPkgs[fn.Pkg().Name()] {
+			return
 		}
 	}
 	if len(a.stack) >= 7 {
@@ -734,7 +835,7 @@ func main() {
 	out := os.Args[2]
 	dirs := []string{"pkg/process", "pkg/packet", "pkg/port", "pkg/types", "pkg/encoding", "pkg/store", "pkg/symbol", "pkg/runtime"}
 	fset := token.NewFileSet()
-	a := &analyzer{fset: fset, decls: map[*types.Func]*ast.FuncDecl{}, owners: map[*types.Named]bool{}, written: map[string]bool{}, ctorOnly: map[string]bool{},
+	a := &analyzer{fset: fset, decls: map[*types.Func]*ast.FuncDecl{}, declsN: map[string]*ast.FuncDecl{}, ownersN: map[string]bool{}, owners: map[*types.Named]bool{}, written: map[string]bool{}, ctorOnly: map[string]bool{},
 		info: &types.Info{Uses: map[*ast.Ident]types.Object{}, Defs: map[*ast.Ident]types.Object{}, Selections: map[*ast.SelectorExpr]*types.Selection{}, Types: map[ast.Expr]types.TypeAndValue{}}}
 	imp := importer.ForCompiler(fset, "source", nil)
 	var allFiles []*ast.File
@@ -787,6 +888,7 @@ func main() {
 				}
 				if has {
 					a.owners[named] = true
+					a.ownersN[ownerKey(named)] = true
 					for i := 0; i < st.NumFields(); i++ {
 						if !skipFieldType(st.Field(i).Type()) {
 							classFields[className(named)] = append(classFields[className(named)], st.Field(i).Name())
@@ -803,6 +905,7 @@ func main() {
 			if fd, ok := d.(*ast.FuncDecl); ok && fd.Body != nil {
 				if obj, ok := a.info.Defs[fd.Name].(*types.Func); ok {
 					a.decls[obj] = fd
+					a.declsN[obj.FullName()] = fd
 					fds = append(fds, fd)
 				}
 			}
